@@ -71,6 +71,15 @@ def gen(rng, n):
             lay.tree += [['f', lay.j(root, '.Trash'), 'not a directory'], ['f', lay.top2(root), 'not a directory']]
             tdopt = ['--home-fallback']
             putenv = {'TRASH_ENABLE_HOME_FALLBACK': '1'}
+        if not tdopt and rng.random() < 0.15:
+            # what a purge killed between its two removals leaves behind: a payload without .trashinfo, of the SAME name, in the
+            # directories the entry can go to - the new entry must get another name and come back alone
+            for td in [lay.home_trash] + [lay.top2(v) for v in lay.all_vols if lay.top[v][1] != 'file']:
+                ok = rng.choice(['d', 'd', 'f'])
+                if ok == 'd':
+                    nodes += [['d', td + '/files/' + name, 0o755], ['f', td + '/files/' + name + '/old', 'left over'], ['d', td + '/info', 0o700]]
+                else:
+                    nodes += [['f', td + '/files/' + name, 'left over'], ['d', td + '/info', 0o700]]
         sort = rng.choice(['date', 'path', 'none', None])
         scope_kind = rng.choice(['path', 'parent-arg', 'cwd-parent', 'ancestor', 'root'])
         steps = [{'cmd': 'put', 'argv': tdopt + ['--', full], 'now': [2024, 5, 6, 7, 8, 9, 0], 'env': putenv}]
